@@ -24,6 +24,7 @@ LEVEL_TEXT = (
     "context managers entered and exited per the protocol"
     "; a manager is exited also when binding its `as` target fails; raise / raise from / raise from None build Python's chain"
     "; the implicit unbinding of an except clause's name tolerates `del name` inside the handler"
+    '; `with` on a non-manager raises TypeError before anything is entered'
 )
 LEVEL_NOTE = (
     "trusted: the abstract evaluator's model of Python control flow; nesting deeper than one level follows by "
